@@ -110,6 +110,14 @@ Theorem C17_html_text_monotone :
 Proof. exact html_text_monotone. Qed.
 Print Assumptions C17_html_text_monotone.
 
+(* the tree the builder hands to the renderer never contains a removable element, so the renderer's own
+   `if tag in REMOVE_TAGS: return ""` branch (_process_node) is dead: removal happens in the builder only *)
+Theorem C17_html_tree_has_no_removable_node :
+  forall (remove void : list str) (l : list event),
+    html_wf remove = true -> node_ok remove (tree_of (vis (html_build remove void l))) = true.
+Proof. exact html_tree_no_removable. Qed.
+Print Assumptions C17_html_tree_has_no_removable_node.
+
 (* ---- EPUB chapter machine (_XhtmlTextExtractor); normcell = whitespace normalisation oracle ---- *)
 
 Theorem C17_epub_noninterference :
